@@ -418,3 +418,124 @@ M("c16-summary-of-wrong-value", "C16", "R1.summary-not-payload", "operation/chil
   "                    self.config.summary_generator(raw_result)", "                    self.config.summary_generator(serialized_result)")
 M("c16-benign-ge-plus-one", "C16", "", "operation/child.py",
   "            if len(serialized_result) > CHECKPOINT_SIZE_LIMIT:", "            if not len(serialized_result) <= CHECKPOINT_SIZE_LIMIT:", expect="silent")
+
+# ----------------------------------------------------------------------------- C05
+M("c05-oversize-parked-forever", "C05", "R3.", "state.py",
+  """                if (
+                    batch
+                    and total_size + op_size
+                    > self._batcher_config.max_batch_size_bytes
+                ):""", """                if total_size + op_size > self._batcher_config.max_batch_size_bytes:""", desc="the repaired defect, re-introduced")
+M("c05-token-not-updated", "C05", "R5.token-threading", "state.py",
+  "                    current_checkpoint_token = output.checkpoint_token\n", "")
+M("c05-drop-size-guard", "C05", "R4.limit-guards", "state.py",
+  """                if total_size + op_size > self._batcher_config.max_batch_size_bytes:
+                    # Put in overflow queue for next batch""", """                if False:
+                    # Put in overflow queue for next batch""")
+M("c05-append-and-park", "C05", "R2.linearity", "state.py",
+  """                    self._overflow_queue.put(additional_op)
+                    logger.debug(
+                        "Batch size limit reached, moving operation to overflow queue"
+                    )
+                    break""", """                    self._overflow_queue.put(additional_op)
+                    batch.append(additional_op)
+                    break""")
+M("c05-park-on-main-queue", "C05", "R", "state.py",
+  "                    self._overflow_queue.put(additional_op)\n                    logger.debug(",
+  "                    self._checkpoint_queue.put(additional_op)\n                    logger.debug(")
+M("c05-skip-release-on-success", "C05", "R6.release", "state.py",
+  """                    for queued_op in batch:
+                        if queued_op.completion_event is not None:
+                            queued_op.completion_event.set()
+                except Exception as e:""", """                    for queued_op in batch[1:]:
+                        if queued_op.completion_event is not None:
+                            queued_op.completion_event.set()
+                except Exception as e:""")
+M("c05-count-limit-dropped", "C05", "R4.limit-guards", "state.py",
+  """            time.time() < batch_deadline
+            and len(batch) < self._batcher_config.max_batch_operations
+            and not self._checkpointing_stopped.is_set()""", """            time.time() < batch_deadline
+            and not self._checkpointing_stopped.is_set()""")
+M("c05-batch-reversed", "C05", "R", "state.py",
+  "        return batch\n\n    @staticmethod", "        return batch[::-1]\n\n    @staticmethod")
+M("c05-size-of-wrong-item", "C05", "R4.limit-guards", "state.py",
+  "                op_size = self._calculate_operation_size(additional_op)", "                op_size = self._calculate_operation_size(batch[0])")
+M("c05-second-producer", "C05", "R1.queue-ownership", "state.py",
+  "        logger.debug(\"Signaling background thread to stop checkpointing\")\n",
+  "        logger.debug(\"Signaling background thread to stop checkpointing\")\n        self._checkpoint_queue.put(QueuedOperation(None))\n")
+M("c05-updates-filtered", "C05", "R5.updates-are-the-batch", "state.py",
+  "                    q.operation_update for q in batch if q.operation_update is not None",
+  "                    q.operation_update for q in batch[:1] if q.operation_update is not None")
+M("c05-drain-main-first", "C05", "R", "state.py",
+  "                overflow_op = self._overflow_queue.get_nowait()", "                overflow_op = self._checkpoint_queue.get_nowait()")
+M("c05-benign-ge", "C05", "", "state.py",
+  """                if total_size + op_size > self._batcher_config.max_batch_size_bytes:
+                    # Put in overflow queue for next batch""", """                if not (total_size + op_size <= self._batcher_config.max_batch_size_bytes):
+                    # Put in overflow queue for next batch""", expect="silent")
+
+# ----------------------------------------------------------------------------- C06
+def _flag_after_drain(src):
+    a = "                    self._checkpointing_failed.set(bg_error)\n\n"
+    b = "                    # Exit the loop - error has been signaled"
+    if src.count(a) != 1 or src.count(b) != 1:
+        return None
+    return src.replace(a, "").replace(b, "                    self._checkpointing_failed.set(bg_error)\n\n" + b)
+
+
+M2("c06-flag-after-drain", "C06", "R2.handshake-consumer-flag-before-drain", [{"file": "state.py", "fn": _flag_after_drain}],
+   desc="repaired defect re-introduced (flag raised after the drain)")
+M("c06-no-recheck-after-put", "C06", "R2.handshake-producer-recheck-after-put", "state.py",
+  """            if self._checkpointing_failed.is_set():
+                self._checkpointing_failed.wait()
+
+            # Wait for completion""", """            # Wait for completion""")
+M("c06-done-callback-drops-bte", "C06", "R4.done-callback-routes-every-outcome", "concurrency/executor.py",
+  """        except BaseException as e:  # noqa: BLE001
+            # e.g. BackgroundThreadError: not an outcome of the branch. This callback runs in
+            # a pool thread, so wake the thread blocked in execute(), which re-raises it.
+            self._fatal_exception = e
+            self._completion_event.set()
+            return
+""", "")
+M("c06-timer-unprotected", "C06", "R4.timer-thread-routes-checkpoint-failure", "concurrency/executor.py",
+  """            try:
+                execution_state.create_checkpoint()
+            except BaseException as e:  # noqa: BLE001
+                # e.g. BackgroundThreadError: this runs in the timer thread, so hand the
+                # error to the thread blocked in execute() instead of dying silently
+                self._fatal_exception = e
+                self._completion_event.set()
+                return
+""", "            execution_state.create_checkpoint()\n")
+M("c06-fatal-not-reraised", "C06", "R4.fatal-error-reraised-by-waiter", "concurrency/executor.py",
+  """                if self._fatal_exception:
+                    raise self._fatal_exception
+""", "")
+M("c06-main-queue-not-drained", "C06", "R1.handler-drains-and-wakes", "state.py",
+  """                    while not self._checkpoint_queue.empty():
+                        try:
+                            item = self._checkpoint_queue.get_nowait()
+                            if item.completion_event:
+                                item.completion_event.set(bg_error)
+                        except queue.Empty:
+                            break
+""", "")
+M("c06-drained-set-without-error", "C06", "R1.handler-drains-and-wakes", "state.py",
+  """                            item = self._overflow_queue.get_nowait()
+                            if item.completion_event:
+                                item.completion_event.set(bg_error)""", """                            item = self._overflow_queue.get_nowait()
+                            if item.completion_event:
+                                item.completion_event.set()""")
+M("c06-consumer-continues", "C06", "R1.consumer-stops", "state.py",
+  "                    # Exit the loop - error has been signaled to main thread via completion events\n                    break\n",
+  "                    # Exit the loop - error has been signaled to main thread via completion events\n                    continue\n")
+M("c06-suspend-is-exception", "C06", "R3.base-exception-only", "exceptions.py",
+  "class SuspendExecution(BaseException):", "class SuspendExecution(Exception):")
+M("c06-wrapper-pending-on-bte", "C06", "R5.wrapper-outcome", "execution.py",
+  "                raise bg_error.source_exception from bg_error\n",
+  "                return DurableExecutionInvocationOutput(\n                    status=InvocationStatus.PENDING\n                ).to_dict()\n")
+M("c06-child-swallows-base", "C06", "R", "operation/child.py",
+  "        except SuspendExecution:\n            # Don't checkpoint SuspendExecution - let it bubble up\n            raise\n",
+  "        except SuspendExecution:\n            # Don't checkpoint SuspendExecution - let it bubble up\n            raise\n        except BackgroundThreadError:\n            return None  # type: ignore\n")
+M("c06-wfc-catches-base", "C06", "R6.failure-ends-operation", "operation/wait_for_condition.py",
+  "        except Exception as e:\n            # Mark as failed", "        except BaseException as e:\n            # Mark as failed")
